@@ -30,7 +30,14 @@ ARFF_SPARSE = ['@relation t', '@attribute a numeric', '@attribute b {x,y}', '@at
 ARFF_QUOTES = ['@relation t', '@attribute a string', '@attribute b string', '@attribute c numeric', '@data',
                "'p q',r,1", '"s, t",u,2', "v,'w\"',3"]
 
-SOURCES = ['dl', 'dc', 'sk', 'si', 'sc', 'ad', 'as', 'aq', 'lz', 'lzs', 'lzr', 'ae', 'aes']
+SOURCES = ['dl', 'dc', 'sk', 'si', 'sc', 'ad', 'as', 'aq', 'lz', 'lzs', 'lzr', 'ae', 'aes', 'adt', 'aet']
+
+# tab-delimited twins of the dense ARFF tables (the line reader accepts ',' and TAB); the missing marker ? sits in a
+# first, a middle and a last cell
+_HDR_AD = ['@relation t', '@attribute a numeric', '@attribute b {x,y,z}', '@attribute c string', '@data']
+ARFF_DENSE_TAB = _HDR_AD + ['1\tx\tu', '3\t?\tw', '5\tz\tv', '4\ty\t?']
+_HDR_AE = ['@relation t', '@attribute n numeric', '@attribute s string', '@attribute k {x,?}', '@data']
+ARFF_SPECIAL_TAB = _HDR_AE + ["1\t''\tx", '?\t?\t?', '0\tNone\tx', '2\t\t?', '3\t?\tx']
 
 # cell values the lazy rows special-case ('', '?', quoted '?', a level named '?', '0', 'None') in numeric, string and
 # nominal attributes: every access path must treat them like the eager table does
@@ -105,11 +112,20 @@ def source_model(name):
         L = ['x', '?']
         return Tbl('dense', [[1.0, '', cat('x', L)], [None, None, cat('?', L)], [0.0, 'None', cat('x', L)],
                              [None, None, cat('x', L)], [2.0, '', cat('?', L)]],
-                   headers=['n', 's', 'k'], plain=False, arff=True)
+                   headers=['n', 's', 'k'], plain=False, arff=True,
+                   missing=[False, True, False, None, True])     # row 3 holds a QUOTED ?: whether that is the marker is left open (C12)
+    if name == 'adt':
+        return Tbl('dense', [[1.0, cat('x', LV3), 'u'], [3.0, None, 'w'], [5.0, cat('z', LV3), 'v'], [4.0, cat('y', LV3), None]],
+                   headers=['a', 'b', 'c'], missing=[False, True, False, True], plain=False, arff=True)
+    if name == 'aet':
+        L = ['x', '?']
+        return Tbl('dense', [[1.0, '', cat('x', L)], [None, None, cat('?', L)], [0.0, 'None', cat('x', L)], [2.0, '', cat('?', L)],
+                             [3.0, None, cat('x', L)]],
+                   headers=['n', 's', 'k'], missing=[False, True, False, True, True], plain=False, arff=True)
     if name == 'aes':
         L = ['0', 'x', '?']
         return Tbl('sparse', [{'a': None, 'b': cat('?', L), 'c': None}, {'b': cat('x', L), 'c': '0'}, {'a': 0.0, 'b': cat('0', L), 'c': '0'}],
-                   plain=False, arff=True)
+                   missing=[True, False, False], plain=False, arff=True)
     if name == 'lzs':
         rows = []
         for r in LZS_RAW:
@@ -127,6 +143,8 @@ def source_raw(name):
     if name == 'as': return ('arff', list(ARFF_SPARSE))
     if name == 'aq': return ('arff', list(ARFF_QUOTES))
     if name == 'ae': return ('arff', list(ARFF_SPECIAL))
+    if name == 'adt': return ('arff', list(ARFF_DENSE_TAB))
+    if name == 'aet': return ('arff', list(ARFF_SPECIAL_TAB))
     if name == 'aes': return ('arff', list(ARFF_SPARSE_SPECIAL))
     if name == 'lzr': return ('lazydense-r', [list(r) for r in LZR_RAW])
     if name == 'lz': return ('lazydense', [list(r) for r in LZ_RAW])
@@ -197,7 +215,7 @@ def m_apply(t: Tbl, st):
         keep_rows = list(range(len(t.rows)))
         if pred is not None:
             if pred[0] == 'missing':
-                if t.missing is None: raise Precond()
+                if t.missing is None or any(m is None for m in t.missing): raise Precond('a row whose missing flag is left open')
                 keep_rows = [i for i in keep_rows if not t.missing[i]]
             else:
                 _, key, j = pred
@@ -400,10 +418,11 @@ def stage_kind(st):
 SRC_KIND = {'dl': 'dense lists', 'dc': 'dense lists with Categorical', 'sk': 'sparse dicts', 'si': 'sparse dicts (int keys)',
             'sc': 'sparse dicts with Categorical', 'ad': 'ARFF dense', 'as': 'ARFF sparse', 'aq': 'ARFF dense (mixed quoting)',
             'lz': 'LazyDense rows', 'lzs': 'LazySparse rows', 'lzr': 'LazyDense rows (other header order)',
-            'ae': 'ARFF dense (special cells)', 'aes': 'ARFF sparse (special cells)'}
+            'ae': 'ARFF dense (special cells)', 'aes': 'ARFF sparse (special cells)',
+            'adt': 'ARFF dense (tab separated)', 'aet': 'ARFF dense (special cells, tab separated)'}
 
 # re-use cases: the SAME filter objects are applied to table 1, then table 2, then table 1 again
-REUSE_GROUPS = [['dl', 'ad', 'lz', 'lzr', 'aq', 'ae'],        # dense: unheaded / headed / other header order / other names
+REUSE_GROUPS = [['dl', 'ad', 'lz', 'lzr', 'aq', 'ae', 'adt'],        # dense: unheaded / headed / other header order / other names
                 ['sk', 'as', 'lzs', 'aes'],                    # sparse keyed by name
                 ['dl', 'si']]                                   # dense vs sparse keyed by column number (index-based stages)
 REUSE_SELF = ['dc', 'sc', 'si']
